@@ -196,6 +196,112 @@ for _f in ('json', 'yaml', 'msgpack', 'msgpackrpc'):
     _mk_kinds(_f)
 
 
+# every primitive model the package exports (not only the ones in the main signature): one method per model
+def _all_primitives():
+    import spyne.model.primitive as P
+    from spyne.model import SimpleModel
+    skip = ('Any', 'AnyDict', 'AnyXml', 'AnyHtml')      # declared to carry anything / documents: no type to substitute
+    out = {}
+    for k, v in sorted(vars(P).items()):
+        if isinstance(v, type) and issubclass(v, SimpleModel) and hasattr(v, 'Attributes') and k not in skip:
+            out[k] = v
+    return out
+
+
+SCALAR_KINDS = [None, True, False, 0, 1, -1, 7, 200, 2 ** 70, 5.5, 1.0, -0.5, 'text', '7', '5.5', '', [], [1], {}, {'a': 1}]
+
+
+def _native_ok(T, v):
+    """None or an instance of the native type of primitive model T (by the model's place in the class tree)."""
+    import spyne.model.primitive as P
+    if v is None:
+        return True
+    if issubclass(T, P.Boolean):
+        return isinstance(v, bool)
+    if issubclass(T, P.Integer):
+        return isinstance(v, int) and not isinstance(v, bool)
+    if issubclass(T, P.Double):
+        return isinstance(v, (int, float)) and not isinstance(v, bool)
+    if issubclass(T, P.Decimal):
+        return isinstance(v, (decimal.Decimal, int)) and not isinstance(v, bool)
+    if issubclass(T, P.Uuid):
+        return isinstance(v, uuid.UUID)
+    if issubclass(T, P.Unicode):
+        return isinstance(v, str)
+    if issubclass(T, P.Date):
+        return isinstance(v, dt.date) and not isinstance(v, dt.datetime)
+    if issubclass(T, P.DateTime):
+        return isinstance(v, dt.datetime)
+    if issubclass(T, P.Time):
+        return isinstance(v, dt.time)
+    if issubclass(T, P.Duration):
+        return isinstance(v, dt.timedelta)
+    return True
+
+
+def _mk_every_primitive(family):
+    @obligation('C04.kinds.every_primitive.%s' % family,
+                targets=['spyne.protocol.dictdoc.hier:HierDictDocument._from_dict_value',
+                         'spyne.model.primitive.number:Decimal.validate_native',
+                         'spyne.model.primitive.number:Integer.validate_native'],
+                bounded="every primitive model exported by spyne.model.primitive (about 55, found by introspection) x 20 "
+                        "scalar value kinds (null, booleans, integers incl. 2**70, integral and fractional floats, numeric "
+                        "and other text, empty and non-empty list and map), soft validation",
+                desc="dict documents under soft validation: whatever value kind is sent for an argument of whatever "
+                     "primitive model, user code receives None or an instance of the model's native type, or the request "
+                     "is refused")
+    def ob(c):
+        prims = _all_primitives()
+        name = c.choose(sorted(prims), 'model')
+        T = prims[name]
+        received = []
+
+        def m(ctx, v):
+            received.append(v)
+            return 1
+        m._pyvc_native = True
+        Svc = type(ServiceBase)('PSvc', (ServiceBase,), {'p': rpc(T, _returns=Integer)(m)})
+        inp, outp = protocols(family, 'soft')
+        app = Application([Svc], TNS, name='VApp', in_protocol=inp, out_protocol=outp)
+        wsgi = WsgiApplication(app)
+        bad = []
+        escaped = []
+        for v in SCALAR_KINDS:
+            if family == 'json':
+                body, ctype = json.dumps({'p': {'v': v}}).encode(), 'application/json'
+            elif family == 'yaml':
+                import yaml
+                body, ctype = yaml.safe_dump({'p': {'v': v}}).encode(), 'text/yaml'
+            else:
+                import msgpack
+                w = str(v) if isinstance(v, int) and not isinstance(v, bool) and not (-2 ** 63 <= v < 2 ** 64) else v
+                doc = [0, 1, 'p', [w]] if family == 'msgpackrpc' else {b'p': {b'v': w}}
+                body, ctype = msgpack.packb(doc), 'application/x-msgpack'
+            env = {'REQUEST_METHOD': 'POST', 'PATH_INFO': '/', 'QUERY_STRING': '', 'SERVER_NAME': 'h', 'SERVER_PORT': '80',
+                   'wsgi.url_scheme': 'http', 'wsgi.input': io.BytesIO(body), 'CONTENT_TYPE': ctype,
+                   'CONTENT_LENGTH': str(len(body))}
+
+            def sr(status, headers, exc_info=None):
+                pass
+            sr._pyvc_native = True
+            del received[:]
+            out = c.run(wsgi, env, sr)
+            if out.returned:
+                c.run(lambda: list(out.value))
+            else:
+                escaped.append((repr(v), repr(out)[:200]))
+            for r in received:
+                if not _native_ok(T, r):
+                    bad.append((repr(v), type(r).__name__, repr(r)[:60]))
+        c.check('no_exception_escapes', not escaped, detail=(name, escaped[:3]))
+        c.check('argument_is_of_the_declared_native_type', not bad, detail=(name, bad[:4]))
+    return ob
+
+
+for _f in ('json', 'yaml', 'msgpack', 'msgpackrpc'):
+    _mk_every_primitive(_f)
+
+
 XML_ARGS4 = XML_ARGS.replace('<tns:c><tns:x>1</tns:x><tns:s>y</tns:s></tns:c>',
                              '<tns:c><tns:x>1</tns:x><tns:s>y</tns:s></tns:c>') + \
     '<tns:l><tns:Base><tns:x>1</tns:x><tns:s>y</tns:s></tns:Base><tns:Base><tns:x>2</tns:x><tns:s>z</tns:s></tns:Base></tns:l>'
